@@ -14,6 +14,9 @@
 //! request : C12.limit \t <api> \t <file> ...   the same program, run in a child process under `ulimit -v 2000000` and
 //!           `timeout 60` (resource test, not compared with the model); observe: `tokens <n>` | `resource-exhausted`
 //! observe : `ok <token spellings separated by blanks>` | `err <PreprocessError variant>` | `panic <file>: <message>`
+//! deviation classes (`Dev`): only *classify* a disagreement with the reference; the ones repaired in the code (9f7cdb8:
+//!   paste-in-api-define, duplicate-api-define; f08088c: line-end-before-parenthesis; d66a6d7: pragma-once-by-include-name)
+//!   are no longer offered as explanations, so a return of the defect is `unexplained`
 use crate::util::*;
 use std::collections::{BTreeMap, BTreeSet};
 use std::rc::Rc;
@@ -539,6 +542,13 @@ struct Dev {
     /// the same for a name that C kept because the token that followed it at the time was not `(` (it was a macro that
     /// later expanded to nothing)
     reinvoke_deferred: bool,
+    /// the text before an `#include`, the included file and the text after it are expanded as separate blocks: an
+    /// invocation does not span the start or the end of an included file (`F` at the end of the header, `(1)` in
+    /// the including file; an argument list that is still open where a file ends).  Became visible on its own with
+    /// fix f08088c (before, every such case also crossed a line end and was filed under `newline_blocks_call`).
+    /// C compilers do the same (clang cites C99 5.1.1.2p4, GCC stops its look-ahead at the end of a buffer); the
+    /// property's wording, "equivalent to pasting the file's contents", does not
+    blocks_at_file_boundary: bool,
 }
 
 const DEV_NAMES: &[&str] = &[
@@ -551,6 +561,7 @@ const DEV_NAMES: &[&str] = &[
     "pragma-once-by-include-name",
     "painted-function-name-reinvoked",
     "function-name-before-vanished-macro-invoked",
+    "invocation-spans-file-boundary",
 ];
 
 impl Dev {
@@ -565,6 +576,7 @@ impl Dev {
             once_by_include_name: b & 64 != 0,
             reinvoke_painted: b & 128 != 0,
             reinvoke_deferred: b & 256 != 0,
+            blocks_at_file_boundary: b & 512 != 0,
         }
     }
     fn names(b: u32) -> String {
@@ -716,7 +728,12 @@ impl<'a> Reference<'a> {
                     // RSSL mimicry: the replacement list of an invocation has been expanded completely.  If tokens
                     // remain in the enclosing list (the next entry is not another end marker), RSSL looks at the
                     // expansion once more for a function-like name whose `(` follows the expansion.
-                    let follows = matches!(ts.last(), Some(RTok { k: RK::LParen, .. }));
+                    // (since fix f08088c RSSL's search for `(` skips line ends like any other white space)
+                    let mut j = ts.len();
+                    while j > 0 && ts[j - 1].k == RK::Nl {
+                        j -= 1;
+                    }
+                    let follows = j > 0 && ts[j - 1].k == RK::LParen;
                     if follows && out.len() > *start {
                         let again = match out.last() {
                             Some(RTok { k: RK::Id(g), hs }) => {
@@ -1049,7 +1066,11 @@ fn ref_file(r: &mut Reference, st: &mut RefRun, idx: usize, depth: usize) -> Res
                 st.once.insert(if r.dev.once_by_include_name { file.name.clone() } else { file.real.clone() });
             }
             Line::Include(n) => {
-                // textual inclusion: the pending text simply continues (no barrier)
+                // textual inclusion: the pending text simply continues (no barrier) -- unless the deviation
+                // `invocation-spans-file-boundary` is switched on
+                if r.dev.blocks_at_file_boundary {
+                    ref_flush(r, st)?;
+                }
                 let target = match st.files.iter().position(|f| &f.name == n) {
                     Some(i) => i,
                     None => {
@@ -1062,6 +1083,9 @@ fn ref_file(r: &mut Reference, st: &mut RefRun, idx: usize, depth: usize) -> Res
                     continue;
                 }
                 ref_file(r, st, target, depth + 1)?;
+                if r.dev.blocks_at_file_boundary {
+                    ref_flush(r, st)?;
+                }
             }
         }
     }
@@ -1638,7 +1662,7 @@ fn generate(rng: &mut Rng, hist: &mut Hist) -> Vec<Program> {
 /// budget.  (The prediction misses some; generated programs therefore run in a worker process under a time limit.)
 fn predicted_to_explode(p: &Program) -> bool {
     let mut n0 = RefNotes { step_limit: Some(40_000), ..RefNotes::default() };
-    let r0 = run_reference(p, Dev::from_bits(8 | 16 | 128 | 256), &mut n0);
+    let r0 = run_reference(p, Dev::from_bits(8 | 16 | 128 | 256 | 512), &mut n0);
     let big = matches!(&r0, Ok(t) if t.len() > 6000);
     matches!(r0, Err(RefErr::Steps)) || big
 }
@@ -1730,9 +1754,10 @@ fn judge_with(p: &Program, real: Option<Real>, out: &mut Out, hist: &mut Hist) {
             let mut oos_under_deviations = false;
             'search: for k in 1..=3u32 {
                 for bits in 1u32..(1 << DEV_NAMES.len()) {
-                    // `paste-in-api-define` (4) and `duplicate-api-define` (32) were fixed in 9f7cdb8: not offered as
-                    // explanations any more (a regression shows up as `unexplained`)
-                    if bits.count_ones() != k || bits & (4 | 32) != 0 {
+                    // `paste-in-api-define` (4) and `duplicate-api-define` (32) were fixed in 9f7cdb8,
+                    // `line-end-before-parenthesis` (1) in f08088c, `pragma-once-by-include-name` (64) in d66a6d7: not
+                    // offered as explanations any more (a regression shows up as `unexplained`)
+                    if bits.count_ones() != k || bits & (1 | 4 | 32 | 64) != 0 {
                         continue;
                     }
                     let mut n2 = RefNotes::default();
